@@ -8,8 +8,10 @@ func init() {
 	vHarnesses["H_C01_sld"] = H_C01_sld
 	vHarnesses["H_C01_gen"] = H_C01_gen
 	vHarnesses["H_C03_cut"] = H_C03_cut
+	vHarnesses["H_C03_shape"] = H_C03_shape
 	vHarnesses["H_C04_catch"] = H_C04_catch
 	vHarnesses["H_C09_history"] = H_C09_history
+	vHarnesses["H_C09_text"] = H_C09_text
 	vHarnesses["H_C11_allsol"] = H_C11_allsol
 	vHarnesses["H_C19_cursor2"] = H_C19_cursor2
 	vHarnesses["H_C19_cursor3"] = H_C19_cursor3
@@ -43,6 +45,12 @@ func H_C01_gen(inst int) {
 	engine.VH_C01_gen(&i.VM, inst)
 }
 
+// H_C03_shape: generated family of conjunction shapes with a cut at every position (see engine.VH_C03_shape).
+func H_C03_shape(inst int) {
+	i := newFull()
+	engine.VH_C03_shape(&i.VM, inst)
+}
+
 // H_C03_cut: differential run of case `inst` of the cut/control corpus.
 func H_C03_cut(inst int) {
 	i := newFull()
@@ -53,6 +61,12 @@ func H_C03_cut(inst int) {
 func H_C04_catch(inst int) {
 	i := newFull()
 	engine.VH_C04(&i.VM, inst)
+}
+
+// H_C09_text: database cases with clauses that share variables with the asserting goal.
+func H_C09_text(inst int) {
+	i := newFull()
+	engine.VH_C09_text(&i.VM, inst)
 }
 
 // H_C09_history: bounded database histories (family = inst) against the logical-update-view reference.
